@@ -367,4 +367,21 @@ theorem flow_Conn_Release : Gen.Flow.Conn_Release = [
   "end"
 ] := rfl
 
+theorem flow_EncodeTargetReadyMessage : Gen.Flow.EncodeTargetReadyMessage = [
+  "return []byte(fmt.Sprintf(\"%s|%s\", tunnelID, targetNodeID))"
+] := rfl
+
+theorem flow_DecodeTargetReadyMessage : Gen.Flow.DecodeTargetReadyMessage = [
+  "s := string(data)",
+  "for i := len(s) - 1; i >= 0; i--",
+  "if s[i] == '|'",
+  "tunnelID = s[:i]",
+  "targetNodeID = s[i+1:]",
+  "return",
+  "end",
+  "end",
+  "err = coreerrors.New(coreerrors.CodeInvalidPacket, \"invalid target ready message format\")",
+  "return"
+] := rfl
+
 end Tunnox.C10.Ties
